@@ -142,7 +142,8 @@ BOUNDS = {"id formula (K)": "all shapes w,h,d >= 0 (non-linear, no bound), all i
           "get_cell (K)": "all shapes, all integer coordinates, list-backed cells", "X fallback": "extents 0..2/3"}
 OUTSIDE = ["that pandas' iloc[i] returns the i-th row (trusted; positional access is stubbed by a list-backed stand-in)",
            "non-integer coordinates"]
-STUBS = ["self.cells replaced by a list-backed stand-in: iloc[i] -> row i, ['pos'][i] -> i-th position of the table"]
+STUBS = ["functools.lru_cache-wrapped helpers of ECAgent.Environments replaced by a Python-level memo inside patched_pandas() (C-level memoisation is invisible to CrossHair)", "X worlds are built by the real constructors with ECAgent.Environments.pandas replaced by the contract stand-in vf.stubs.Frame",
+         "self.cells replaced by a list-backed stand-in: iloc[i] -> row i, ['pos'][i] -> i-th position of the table"]
 ASSUMPTIONS = ["the world's table enumerates z-major, then y, then x over max(extent,1) cells per axis - checked against the real "
                "constructor for every concrete shape (table_inverse)"]
 
